@@ -39,6 +39,10 @@ ASSUMPTIONS = [
     "character, each as user and as owner password, tried with itself, with a sibling character sharing the leading bytes (U+00E3, U+20A9, "
     "U+2000B: same first 127 bytes, must open) and cut at the character boundary (must not open); stringprep 0.1.5 maps all of these to "
     "themselves (probed; U+1F600 is prohibited by SASLprep and therefore not used). The reference prepares passwords itself (no stringprep).",
+    "Revisions 2-4 also: passwords with the Euro sign, bullet, dagger (PDFDocEncoding 0xA0, 0x80, 0x81 - other codes or none in WinAnsi, "
+    "MacRoman, Standard). History: besides the undisturbed run, both directions are repeated in worker processes that first call "
+    "Document::encode_text (through a font dictionary's get_font_encoding) with predefined encodings in a given order - quick 6 orders, "
+    "thorough all 16 orders of length 1 and 2 - before any password is converted; the model enumerates all histories of length <= 2.",
     "'Absent owner password' is the empty string (the only way lopdf's API can express it); Algorithm 3 (a) then uses the user password.",
     "Algorithm 5 (f): only the first 16 bytes of U are compared for revisions 3-4 (UCmpLen in the spec); the 4 random bytes of Perms, the "
     "salts in U[32..48] / O[32..48] and every AES IV are read from lopdf's output and substituted into the terms.",
@@ -64,7 +68,15 @@ MODEL_DEV = {"h12": False, "ownerAbsent": False}
 # length than the reader of the standard or rejects the dictionary; set() once the repairs are applied and Dev_length = FALSE
 MODEL_DEV_LENGTH = set()          # repaired by 1a492b6 (V5.256) and ce1e5ee (V1.40, V4.absent)
 
-MUTANTS = [("MC_SecurityAlgorithms_mut_alg7.cfg", "AuthOwnerComplete"), ("MC_SecurityAlgorithms_mut_alg12.cfg", "AuthOwnerComplete")]
+MUTANTS = [("MC_SecurityAlgorithms_mut_alg7.cfg", "AuthOwnerComplete"), ("MC_SecurityAlgorithms_mut_alg12.cfg", "AuthOwnerComplete"),
+           # "the conversion table is built on the first call and kept": refuted by a history WinAnsi/MacRoman/Standard-first
+           ("MC_SecurityAlgorithms_mut_table.cfg", "PrepIsFunction")]
+
+# first-call orders of the public text-encoding entry points, one worker process each (a process-wide cache can only be
+# observed from a fresh process); MC_SecurityAlgorithms!Disturb enumerates all histories of length <= 2
+ENCS = ["PDFDoc", "WinAnsi", "MacRoman", "Standard"]
+ORDERS_QUICK = [["WinAnsi"], ["MacRoman"], ["Standard"], ["PDFDoc", "WinAnsi"], ["WinAnsi", "MacRoman"], ["Standard", "PDFDoc"]]
+ORDERS_THOROUGH = [[a] for a in ENCS] + [[a, b] for a in ENCS for b in ENCS if a != b]
 
 
 def _ascii_run(key, n):
@@ -80,6 +92,8 @@ def seg_bytes(s):
     i, n = s["id"], s["len"]
     if i == "lat":
         return "a\u00e9\u00fc".encode()
+    if len(i) >= 2 and i[0] == "c" and i[1].isdigit():
+        return "".join({0x80: "\u2022", 0x81: "\u2020", 0xA0: "\u20ac"}.get(int(c), chr(int(c))) for c in i[1:].split("_")).encode()
     if len(i) == 3 and i[0] in "HTUC" and i[1:].isdigit():
         k, j = int(i[1]), int(i[2])
         ch, sib = _CUT[(k, 0)].encode(), _CUT[(k, 1)].encode()
@@ -113,7 +127,7 @@ def detail(rec):
 
 def emitted(r):
     out = []
-    for tag in ("TERMS", "CASE"):
+    for tag in ("TERMS", "CASE", "PREP"):
         for d in r.tagged(tag):
             d["kind"] = tag
             out.append(d)
@@ -172,6 +186,19 @@ def check_generated(lines):
                not any(c[exp] and split_at_cut(c["try"]) and c["try"] != c[who] for c in mine) or \
                not any(not c[exp] and len(c["try"]) == 2 and c["try"][1]["id"][0] == "C" for c in mine):
                 raise vlib.ToolError("vacuous: revision %d %s: cut-in-character password not tried with itself / sibling / boundary cut" % (r, who))
+    # history: every predefined encoding occurs as the first conversion of the process, with texts on which it differs from
+    # PDFDocEncoding and texts on which it does not; the modelled cache (Dev_tableCache) is off in the design as the code is
+    preps = [l for l in lines if l["kind"] == "PREP"]
+    firsts = {(p["hist"][0], p["sensitive"][p["hist"][0]]) for p in preps if p["hist"]}
+    if not {("WinAnsi", True), ("WinAnsi", False), ("MacRoman", True), ("Standard", True), ("PDFDoc", False)} <= firsts \
+       or not any(len(p["hist"]) == 2 for p in preps) or not any(not p["hist"] for p in preps):
+        raise vlib.ToolError("vacuous: histories of text conversions missing from the model run: %s" % sorted(firsts))
+    if any(p["dev"] for p in preps):
+        raise vlib.ToolError("the conversion-table cache is switched on in the design as the code is")
+    for r in (2, 3, 4):
+        if not any(c["cfg"]["R"] == r and any(s["txt"] and "euro" in s["txt"] for s in c["user"]) for c in cases) or \
+           not any(c["cfg"]["R"] == r and any(s["txt"] and "bullet" in s["txt"] for s in c["owner"]) for c in cases):
+            raise vlib.ToolError("vacuous: revision %d has no user / owner password on which the one-byte encodings differ" % r)
     # the Length entry: every legal form per V is emitted; the modelled deviation occurs exactly in the listed classes
     forms = {(t["cfg"]["V"], m["cls"]) for t in terms for m in t["lengthModel"]}
     if not {(1, "none"), (1, "V1.40"), (2, "none"), (2, "V2.absent"), (4, "none"), (4, "V4.absent"), (5, "none"), (5, "V5.256")} <= forms:
@@ -243,12 +270,12 @@ def run(tier):
         res = list(ex.map(mc, jobs))
     r0 = res[0]
     chk.add_tlc(r0)
-    for (cfg, want), r in zip(MUTANTS, res[1:3]):
+    for (cfg, want), r in zip(MUTANTS, res[1:1 + len(MUTANTS)]):
         if r.violation != want:
             raise vlib.ToolError("mutant %s is not refuted by %s (got %s)" % (cfg, want, r.violation))
     chk.extra["mutants_refuted"] = len(MUTANTS)
     if thorough:
-        chk.add_tlc(res[3])         # the design with the repaired defects seeded back deviates exactly where the switches say
+        chk.add_tlc(res[1 + len(MUTANTS)])         # the design with the repaired defects seeded back deviates exactly where the switches say
     lines = emitted(r0)
     nterms, ncases, ngroups = check_generated(lines)
     chk.exhaustive = True
@@ -259,16 +286,30 @@ def run(tier):
 
     # ---------------------------------------------------------------- (G) + (V)
     rounds = 6 if thorough else 1
-    recs = []
+    # history: the same two directions in processes that first convert text with other predefined encodings, one process per
+    # first-call order; the groups whose passwords have characters on which the encodings differ come first
+    nsens = len({(json.dumps(c["cfg"], sort_keys=True), c["absent"], json.dumps(c["user"]), json.dumps(c["owner"]))
+                 for c in lines if c["kind"] == "CASE" and any(s["txt"] for s in c["user"] + c["owner"])})
+    orders = ORDERS_THOROUGH if thorough else ORDERS_QUICK
+    jobs = []                                     # (round tag, direction, history, seed, n)
     for k in range(rounds):
-        sd = vlib.seed() + 7919 * k
-        gout, vout = os.path.join(w, "g%d.ndjson" % k), os.path.join(w, "v%d.ndjson" % k)
-        run_bin("c06", ["gen", "--terms", tf, "--seed", sd, "--n", ngroups, "--out", gout])
-        run_bin("c06", ["record", "--terms", tf, "--seed", sd, "--n", ngroups, "--out", vout])
-        for r in read_ndjson(gout) + read_ndjson(vout):
-            r["round"] = k
-            recs.append(r)
-    vs = judge(chk, "c06", recs, 6 if thorough else 2)
+        jobs += [(k, d, "", vlib.seed() + 7919 * k, ngroups) for d in ("gen", "record")]
+    for k, o in enumerate(orders):
+        jobs += [(100 + k, d, ",".join(o), vlib.seed() + 104729 * (k + 1), nsens + 40) for d in ("gen", "record")]
+
+    def harness(job):
+        tag, d, h, sd, n = job
+        outp = os.path.join(w, "%s%d.ndjson" % (d[0], tag))
+        run_bin("c06", [d] + (["--hist", h] if h else []) + ["--terms", tf, "--seed", sd, "--n", n, "--out", outp])
+        return read_ndjson(outp)
+    recs = []
+    with ThreadPoolExecutor(max_workers=8) as ex:
+        for job, rs in zip(jobs, ex.map(harness, jobs)):
+            for r in rs:
+                r["round"] = job[0]
+                recs.append(r)
+    chk.extra["histories_run"] = [",".join(o) for o in orders]
+    vs = judge(chk, "c06", recs, 8 if thorough else 4)
 
     stats = {"env_skipped": 0, "saved_same": 0, "saved_other": 0, "ok": 0}
     seen = set()
@@ -317,6 +358,17 @@ def run(tier):
                     vac.append("revision %d: %s never recomputed for a %s password cut inside a character" % (R, obsname, who))
                 if not any(split_at_cut(r[who]) and r["try"] == r[who] and r["route"] == "file" for r in opens):
                     vac.append("revision %d: no file opened with a %s password cut inside a character" % (R, who))
+    # history: for every order run, passwords sensitive to its first encoding were judged in both directions, revisions 2-4
+    def sens(r, who):
+        return any(s.get("txt") for s in r.get(who, []))
+    for k, o in enumerate(orders):
+        rs = [r for r in recs if r["round"] == 100 + k]
+        if any(r["hist"] != o for r in rs):
+            vac.append("history %s not recorded in its records" % o)
+        for R in (2, 3, 4):
+            if not any(r["ev"] == "obs" and r["obs"] == "O" and r["cfg"]["R"] == R and (sens(r, "user") or sens(r, "owner")) for r in rs) or \
+               not any(r["ev"] == "open" and r["cfg"]["R"] == R and sens(r, "try") and (r.get("expUser") or r.get("expOwner")) for r in rs):
+                vac.append("history %s: no sensitive password judged for revision %d" % (o, R))
     # every legal form of the Length entry was given to lopdf with a right password (and opened, unless a listed deviation)
     lenforms = {}
     for r in recs:
@@ -372,6 +424,10 @@ def run(tier):
                  "V 2 document without Length opened with the user password")
         h["authU"], h["res"], h["fk"], h["canonOpens"] = "no", "err", "na", "yes"
         neg.append((h, lambda v: v == "length.V2.absent"))
+        k = pick(lambda r: r["ev"] == "open" and r["round"] >= 100 and r["hist"][0] != "PDFDoc" and r["cfg"]["R"] == 3 and r.get("expUser")
+                 and r["authU"] == "yes" and any("euro" in s.get("txt", []) for s in r["try"]), "Euro password after another encoding")
+        k["authU"], k["res"], k["fk"] = "no", "err", "na"
+        neg.append((k, lambda v: v == "password-encoding.history.R234"))
         f = pick(lambda r: r["ev"] == "dict", "Encrypt dictionary")
         f["d"]["P"] += 1
         neg.append((f, lambda v: v.startswith("dict.P")))
